@@ -178,6 +178,9 @@ func (c *boolExprSimplifyChecker) combineChecks(cur *astutil.Cursor) bool {
 }
 
 func (c *boolExprSimplifyChecker) removeIncDec(cur *astutil.Cursor) bool {
+	if c.hasFloats {
+		return false
+	}
 	cmp := astcast.ToBinaryExpr(cur.Node())
 
 	matchOneWay := func(op token.Token, x, y *ast.BinaryExpr) bool {
@@ -333,7 +336,7 @@ func (c *boolExprSimplifyChecker) int64val(x ast.Expr) (int64, bool) {
 	if !ok {
 		return 0, false
 	}
-	v, err := strconv.ParseInt(lit.Value, 10, 64)
+	v, err := strconv.ParseInt(lit.Value, 0, 64)
 	if err != nil {
 		return 0, false
 	}
